@@ -275,6 +275,7 @@ func TestAVCConf(t *testing.T) {
 			harness.Rec.Sample(map[string]interface{}{"kind": "avcconf", "case": c})
 		}
 		f := harness.Guarded(func() *harness.Fail { return checkAVCConf(c) })
+		avcReplayConsistent(rt, raw, f, harness.Replayer(checkAVCConf))
 		harness.Report(rt, "avcconf", c, f)
 	})
 }
